@@ -841,13 +841,7 @@ where
     let va = mk(r, vf.data_type(), &rvals, true);
     match RunArray::<Rt>::try_new(&re, va.as_ref()) {
         Ok(a) => Arc::new(a),
-        Err(e) if e.to_string().contains("null_bit_buffer size too small") => {
-            // ArrayData::validate quirk (validity sized with the data offset): use
-            // the canonical values layout instead
-            let va = build(vf.data_type(), &rvals);
-            Arc::new(RunArray::<Rt>::try_new(&re, va.as_ref()).expect("ree try_new"))
-        }
-        Err(e) => panic!("model: ree try_new: {e}"),
+        Err(e) => panic!("ree try_new: {e}"),
     }
 }
 
